@@ -2374,9 +2374,304 @@ theorem wd_pred (G : ι → ι → ℝ) (hG : ∀ x y, 0 ≤ G x y) (x y : ι) (
 
 end dijkstra
 
+-- ===== ELEVENTH BATCH: walks with restricted intermediate nodes, the mathematical core of the Floyd–Warshall algorithm =====
+-- `swalk G S x y m ℓ`: a walk of `m ≥ 1` connections from `x` to `y` of total length `ℓ` all of whose INTERMEDIATE nodes (every
+-- position of the walk other than the first and the last) satisfy `S`.  Floyd–Warshall: after the rounds for the nodes of `S`, the
+-- entry `D x y` is the least length of an `S`-walk; `swalk_empty` is the initial state (`D = G` on the connections), `swalk_insert`
+-- / `swalk_concat` the round for a new node `k`, `swalk_wd` / `swalk_lower` the final state (all nodes allowed: `wd`).
+section floyd
+variable {ι : Type} [Fintype ι] [DecidableEq ι]
+
+/-- `swalk G S x y m ℓ`: there is a walk of exactly `m ≥ 1` connections from `x` to `y`, of total length `ℓ`, whose intermediate
+nodes all satisfy `S` (no condition on `x` and `y` themselves) -/
+def swalk (G : ι → ι → ℝ) (S : ι → Prop) (x : ι) : ι → ℕ → ℝ → Prop
+  | _, 0, _ => False
+  | y, 1, ℓ => G x y ≠ 0 ∧ ℓ = G x y
+  | y, m + 2, ℓ => ∃ z ℓ', S z ∧ swalk G S x z (m + 1) ℓ' ∧ G z y ≠ 0 ∧ ℓ = ℓ' + G z y
+
+theorem swalk_zero (G : ι → ι → ℝ) (S : ι → Prop) (x y : ι) (ℓ : ℝ) : ¬ swalk G S x y 0 ℓ := by
+  simp [swalk]
+
+theorem swalk_one (G : ι → ι → ℝ) (S : ι → Prop) (x y : ι) (ℓ : ℝ) :
+    swalk G S x y 1 ℓ ↔ G x y ≠ 0 ∧ ℓ = G x y := by
+  simp [swalk]
+
+theorem swalk_succ (G : ι → ι → ℝ) (S : ι → Prop) (x y : ι) (m : ℕ) (ℓ : ℝ) :
+    swalk G S x y (m + 2) ℓ ↔ ∃ z ℓ', S z ∧ swalk G S x z (m + 1) ℓ' ∧ G z y ≠ 0 ∧ ℓ = ℓ' + G z y := by
+  rw [swalk]
+
+/-- a walk has at least one connection -/
+theorem swalk_pos (G : ι → ι → ℝ) (S : ι → Prop) (x y : ι) (m : ℕ) (ℓ : ℝ) (h : swalk G S x y m ℓ) : ∃ j, m = j + 1 := by
+  rcases m with _ | j
+  · exact absurd h (swalk_zero G S x y ℓ)
+  · exact ⟨j, rfl⟩
+
+/-- appending a connection `z → y` to a walk ending in an allowed node `z` -/
+theorem swalk_snoc (G : ι → ι → ℝ) (S : ι → Prop) (x z y : ι) (m : ℕ) (ℓ' : ℝ) (hz : S z) (h : swalk G S x z m ℓ')
+    (hzy : G z y ≠ 0) : swalk G S x y (m + 1) (ℓ' + G z y) := by
+  obtain ⟨j, rfl⟩ := swalk_pos G S x z m ℓ' h
+  exact (swalk_succ G S x y j _).mpr ⟨z, ℓ', hz, h, hzy, rfl⟩
+
+/-- induction principle used below: a property of all `m + 1` gives the property for all walks -/
+private lemma swalk_cases (G : ι → ι → ℝ) (S : ι → Prop) (x : ι) (Q : ι → ℕ → ℝ → Prop)
+    (h : ∀ j y ℓ, swalk G S x y (j + 1) ℓ → Q y (j + 1) ℓ) : ∀ m y ℓ, swalk G S x y m ℓ → Q y m ℓ := by
+  intro m y ℓ hw
+  obtain ⟨j, rfl⟩ := swalk_pos G S x y m ℓ hw
+  exact h j y ℓ hw
+
+/-- no intermediate node allowed: only the single connections -/
+theorem swalk_empty (G : ι → ι → ℝ) (S : ι → Prop) (hS : ∀ z, ¬ S z) (x y : ι) (m : ℕ) (ℓ : ℝ)
+    (h : swalk G S x y m ℓ) : m = 1 ∧ G x y ≠ 0 ∧ ℓ = G x y := by
+  rcases m with _ | _ | j
+  · exact absurd h (swalk_zero G S x y ℓ)
+  · exact ⟨rfl, (swalk_one G S x y ℓ).mp h⟩
+  · obtain ⟨z, _, hz, _⟩ := (swalk_succ G S x y j ℓ).mp h
+    exact absurd hz (hS z)
+
+/-- allowing more intermediate nodes keeps the walks -/
+theorem swalk_mono (G : ι → ι → ℝ) (S S' : ι → Prop) (hSS : ∀ z, S z → S' z) (x : ι) :
+    ∀ m y ℓ, swalk G S x y m ℓ → swalk G S' x y m ℓ := by
+  apply swalk_cases
+  intro j
+  induction j with
+  | zero =>
+    intro y ℓ h
+    exact (swalk_one G S' x y ℓ).mpr ((swalk_one G S x y ℓ).mp h)
+  | succ j ih =>
+    intro y ℓ h
+    obtain ⟨z, ℓ', hz, hp, hzy, hl⟩ := (swalk_succ G S x y j ℓ).mp h
+    exact (swalk_succ G S' x y j ℓ).mpr ⟨z, ℓ', hSS z hz, ih z ℓ' hp, hzy, hl⟩
+
+/-- forgetting the restriction: a restricted walk is a weighted walk -/
+theorem wwalk_of_swalk (G : ι → ι → ℝ) (S : ι → Prop) (x : ι) :
+    ∀ m y ℓ, swalk G S x y m ℓ → wwalk G x y m ℓ := by
+  apply swalk_cases
+  intro j
+  induction j with
+  | zero =>
+    intro y ℓ h
+    obtain ⟨hxy, hl⟩ := (swalk_one G S x y ℓ).mp h
+    exact (wwalk_succ G x y 0 ℓ).mpr ⟨x, 0, wwalk_refl G x, hxy, by rw [hl]; ring⟩
+  | succ j ih =>
+    intro y ℓ h
+    obtain ⟨z, ℓ', _, hp, hzy, hl⟩ := (swalk_succ G S x y j ℓ).mp h
+    exact (wwalk_succ G x y (j + 1) ℓ).mpr ⟨z, ℓ', ih z ℓ' hp, hzy, hl⟩
+
+/-- with every node allowed, the weighted walks of at least one connection are restricted walks -/
+theorem swalk_of_wwalk (G : ι → ι → ℝ) (x : ι) :
+    ∀ m y ℓ, wwalk G x y m ℓ → 1 ≤ m → swalk G (fun _ => True) x y m ℓ := by
+  have aux : ∀ j y ℓ, wwalk G x y (j + 1) ℓ → swalk G (fun _ => True) x y (j + 1) ℓ := by
+    intro j
+    induction j with
+    | zero =>
+      intro y ℓ h
+      obtain ⟨z, ℓ', h0, hzy, hl⟩ := (wwalk_succ G x y 0 ℓ).mp h
+      obtain ⟨hxz, hl'⟩ := (wwalk_zero G x z ℓ').mp h0
+      rw [← hxz] at hzy hl
+      exact (swalk_one G _ x y ℓ).mpr ⟨hzy, by rw [hl, hl']; ring⟩
+    | succ j ih =>
+      intro y ℓ h
+      obtain ⟨z, ℓ', hp, hzy, hl⟩ := (wwalk_succ G x y (j + 1) ℓ).mp h
+      exact (swalk_succ G _ x y j ℓ).mpr ⟨z, ℓ', trivial, ih z ℓ' hp, hzy, hl⟩
+  intro m y ℓ h hm
+  obtain ⟨j, rfl⟩ : ∃ j, m = j + 1 := ⟨m - 1, by omega⟩
+  exact aux j y ℓ h
+
+/-- the length of a restricted walk is non-negative -/
+theorem swalk_nonneg (G : ι → ι → ℝ) (hG : ∀ a b, 0 ≤ G a b) (S : ι → Prop) (x y : ι) (m : ℕ) (ℓ : ℝ)
+    (h : swalk G S x y m ℓ) : 0 ≤ ℓ := by
+  have hw := wwalk_of_swalk G S x m y ℓ h
+  clear h
+  induction m generalizing y ℓ with
+  | zero => rw [((wwalk_zero G x y ℓ).mp hw).2]
+  | succ m ih =>
+    obtain ⟨z, ℓ', hz, _, hl⟩ := (wwalk_succ G x y m ℓ).mp hw
+    have := ih z ℓ' hz
+    have := hG z y
+    linarith
+
+/-- concatenation at `k`: an `S`-walk `x → k` followed by an `S`-walk `k → y` is an `S ∪ {k}`-walk; counts and lengths add -/
+theorem swalk_concat (G : ι → ι → ℝ) (S : ι → Prop) (x k : ι) (m₁ : ℕ) (ℓ₁ : ℝ) (h1 : swalk G S x k m₁ ℓ₁) :
+    ∀ m₂ y ℓ₂, swalk G S k y m₂ ℓ₂ → swalk G (fun z => S z ∨ z = k) x y (m₁ + m₂) (ℓ₁ + ℓ₂) := by
+  have h1' : swalk G (fun z => S z ∨ z = k) x k m₁ ℓ₁ := swalk_mono G S _ (fun z hz => Or.inl hz) x m₁ k ℓ₁ h1
+  apply swalk_cases G S k (fun y m₂ ℓ₂ => swalk G (fun z => S z ∨ z = k) x y (m₁ + m₂) (ℓ₁ + ℓ₂))
+  intro j
+  induction j with
+  | zero =>
+    intro y ℓ₂ h2
+    obtain ⟨hky, hl⟩ := (swalk_one G S k y ℓ₂).mp h2
+    rw [hl]
+    exact swalk_snoc G _ x k y m₁ ℓ₁ (Or.inr rfl) h1' hky
+  | succ j ih =>
+    intro y ℓ₂ h2
+    obtain ⟨z, ℓ', hz, hp, hzy, hl⟩ := (swalk_succ G S k y j ℓ₂).mp h2
+    have := swalk_snoc G _ x z y (m₁ + (j + 1)) (ℓ₁ + ℓ') (Or.inl hz) (ih z ℓ' hp) hzy
+    rw [hl, show ℓ₁ + (ℓ' + G z y) = ℓ₁ + ℓ' + G z y by ring]
+    exact this
+
+/-- THE FLOYD–WARSHALL STEP: a walk whose intermediate nodes lie in `S ∪ {k}` either avoids `k` as an intermediate node, or yields
+an `S`-walk `x → k` and an `S`-walk `k → y` that are together not longer (the closed parts at `k` are dropped: lengths are
+non-negative) -/
+theorem swalk_insert (G : ι → ι → ℝ) (hG : ∀ a b, 0 ≤ G a b) (S : ι → Prop) (k x : ι) :
+    ∀ m y ℓ, swalk G (fun z => S z ∨ z = k) x y m ℓ →
+      (swalk G S x y m ℓ ∨ ∃ m₁ ℓ₁ m₂ ℓ₂, swalk G S x k m₁ ℓ₁ ∧ swalk G S k y m₂ ℓ₂ ∧ ℓ₁ + ℓ₂ ≤ ℓ) := by
+  apply swalk_cases G (fun z => S z ∨ z = k) x (fun y m ℓ =>
+    swalk G S x y m ℓ ∨ ∃ m₁ ℓ₁ m₂ ℓ₂, swalk G S x k m₁ ℓ₁ ∧ swalk G S k y m₂ ℓ₂ ∧ ℓ₁ + ℓ₂ ≤ ℓ)
+  intro j
+  induction j with
+  | zero =>
+    intro y ℓ h
+    exact Or.inl ((swalk_one G S x y ℓ).mpr ((swalk_one G _ x y ℓ).mp h))
+  | succ j ih =>
+    intro y ℓ h
+    obtain ⟨z, ℓ', hz, hp, hzy, hl⟩ := (swalk_succ G _ x y j ℓ).mp h
+    by_cases hzk : z = k
+    · -- the last intermediate node is `k`: second part = the single connection `k → y`
+      rw [hzk] at hp hzy hl
+      have h2 : swalk G S k y 1 (G k y) := (swalk_one G S k y _).mpr ⟨hzy, rfl⟩
+      rcases ih k ℓ' hp with hS | ⟨m₁, ℓ₁, m₂, ℓ₂, h1, hc, hle⟩
+      · exact Or.inr ⟨j + 1, ℓ', 1, G k y, hS, h2, le_of_eq hl.symm⟩
+      · have := swalk_nonneg G hG S k k m₂ ℓ₂ hc
+        exact Or.inr ⟨m₁, ℓ₁, 1, G k y, h1, h2, by linarith⟩
+    · -- the last intermediate node is in `S`: extend the walk / the second part by `z → y`
+      have hSz : S z := hz.resolve_right hzk
+      rcases ih z ℓ' hp with hS | ⟨m₁, ℓ₁, m₂, ℓ₂, h1, h2, hle⟩
+      · exact Or.inl ((swalk_succ G S x y j ℓ).mpr ⟨z, ℓ', hSz, hS, hzy, hl⟩)
+      · exact Or.inr ⟨m₁, ℓ₁, m₂ + 1, ℓ₂ + G z y, h1, swalk_snoc G S k z y m₂ ℓ₂ hSz h2 hzy, by linarith⟩
+
+/-- final state, attainment: with every node allowed, the weighted distance of a reachable `y ≠ x` is the length of a walk -/
+theorem swalk_wd (G : ι → ι → ℝ) (hG : ∀ a b, 0 ≤ G a b) (x y : ι) (hr : reachw G x y) (hxy : x ≠ y) :
+    ∃ m, swalk G (fun _ => True) x y m (wd G x y) := by
+  obtain ⟨m, hm⟩ := wd_attained G hG x y hr
+  rcases Nat.eq_zero_or_pos m with h0 | hpos
+  · rw [h0] at hm
+    exact absurd hm.1 hxy
+  · exact ⟨m, swalk_of_wwalk G x m y _ hm hpos⟩
+
+/-- lower bound: a restricted walk (any `S`) is at least as long as the weighted distance, and its end is reachable -/
+theorem swalk_lower (G : ι → ι → ℝ) (hG : ∀ a b, 0 ≤ G a b) (S : ι → Prop) (x y : ι) (m : ℕ) (ℓ : ℝ)
+    (h : swalk G S x y m ℓ) (_hxy : x ≠ y) : wd G x y ≤ ℓ ∧ reachw G x y :=
+  ⟨wd_le G hG x y m ℓ (wwalk_of_swalk G S x m y ℓ h), ⟨m, ℓ, wwalk_of_swalk G S x m y ℓ h⟩⟩
+
+/-- `lemma_floyd(G, n)` in the shape of the SMT instance (reachability written `x == y ∨ sdist(G,x,y) >= 1`, `reachw_iff_sdist`):
+initial state (`swalk_empty` with no node allowed), the round for a node `k` (`swalk_insert`), final state (`swalk_wd`) -/
+theorem floyd_smt (G : ι → ι → ℝ) (hG : ∀ a b, 0 ≤ G a b) :
+    (∀ x y m ℓ, swalk G (fun _ => False) x y m ℓ → m = 1 ∧ G x y ≠ 0 ∧ ℓ = G x y) ∧
+    (∀ (S : ι → Prop) k x y m ℓ, swalk G (fun z => S z ∨ z = k) x y m ℓ →
+      (swalk G S x y m ℓ ∨ ∃ m₁ ℓ₁ m₂ ℓ₂, swalk G S x k m₁ ℓ₁ ∧ swalk G S k y m₂ ℓ₂ ∧ ℓ₁ + ℓ₂ ≤ ℓ)) ∧
+    (∀ x y, (x = y ∨ 1 ≤ sdist G x y) → x ≠ y → ∃ m, swalk G (fun _ => True) x y m (wd G x y)) := by
+  refine ⟨?_, ?_, ?_⟩
+  · intro x y m ℓ h
+    exact swalk_empty G _ (fun _ hz => hz) x y m ℓ h
+  · intro S k x y m ℓ h
+    exact swalk_insert G hG S k x m y ℓ h
+  · intro x y hr hxy
+    exact swalk_wd G hG x y ((reachw_iff_sdist G x y).mpr hr) hxy
+
+end floyd
+
+section wdbinary
+variable {ι : Type} [Fintype ι] [DecidableEq ι]
+
+/-- a 0/1 matrix is non-negative -/
+theorem binary_nonneg (G : ι → ι → ℝ) (hB : ∀ a b, G a b = 0 ∨ G a b = 1) : ∀ a b, 0 ≤ G a b := by
+  intro a b
+  rcases hB a b with h | h <;> rw [h]
+  exact zero_le_one
+
+/-- on a 0/1 matrix every connection has length 1, so the length of a walk is its number of connections -/
+theorem wwalk_binary_len (G : ι → ι → ℝ) (hB : ∀ a b, G a b = 0 ∨ G a b = 1) (x : ι) :
+    ∀ m y ℓ, wwalk G x y m ℓ → ℓ = (m : ℝ) := by
+  intro m
+  induction m with
+  | zero =>
+    intro y ℓ h
+    rw [h.2]
+    simp
+  | succ m ih =>
+    intro y ℓ h
+    obtain ⟨z, ℓ', hw, hne, hℓ⟩ := h
+    have h1 : G z y = 1 := by
+      rcases hB z y with h0 | h1
+      · exact absurd h0 hne
+      · exact h1
+    rw [hℓ, ih z ℓ' hw, h1]
+    push_cast
+    ring
+
+/-- on a 0/1 matrix a walk of `m` connections is a weighted walk of length `m` -/
+theorem wwalk_binary_of_walk (G : ι → ι → ℝ) (hB : ∀ a b, G a b = 0 ∨ G a b = 1) (x : ι) :
+    ∀ m y, walk G x y m → wwalk G x y m (m : ℝ) := by
+  intro m y h
+  obtain ⟨ℓ, hw⟩ := walk_wwalk G x m y h
+  have hℓ := wwalk_binary_len G hB x m y ℓ hw
+  rw [hℓ] at hw
+  exact hw
+
+/-- on a 0/1 matrix the weighted distance is the hop distance -/
+theorem wd_binary (G : ι → ι → ℝ) (hB : ∀ a b, G a b = 0 ∨ G a b = 1) (x y : ι) (hxy : x ≠ y)
+    (hr : reachw G x y) : 1 ≤ sdist G x y ∧ wd G x y = (sdist G x y : ℝ) := by
+  have hG := binary_nonneg G hB
+  have hs : 1 ≤ sdist G x y := by
+    rcases (reachw_iff_sdist G x y).mp hr with h | h
+    · exact absurd h hxy
+    · exact h
+  refine ⟨hs, le_antisymm ?_ ?_⟩
+  · exact wd_le G hG x y (sdist G x y) _
+      (wwalk_binary_of_walk G hB x (sdist G x y) y (walk_sdist G x y hs))
+  · apply le_wd G x y _ hr
+    intro m ℓ hw
+    rw [wwalk_binary_len G hB x m y ℓ hw]
+    have hwalk := wwalk_walk G x m y ℓ hw
+    have hm : 1 ≤ m := by
+      rcases Nat.eq_zero_or_pos m with h0 | hpos
+      · rw [h0] at hwalk
+        exact absurd hwalk hxy
+      · exact hpos
+    exact_mod_cast (sdist_le G x y m hwalk hm).2
+
+/-- `wd_binary` in the form used by the SMT side (reachability written with `sdist`):
+`G` 0/1, `x != y`, `sdist(G,x,y) >= 1` ⟹ `wd(G,x,y) == sdist(G,x,y)` -/
+theorem wd_binary_smt (G : ι → ι → ℝ) (hB : ∀ a b, G a b = 0 ∨ G a b = 1) :
+    ∀ x y, x ≠ y → 1 ≤ sdist G x y → wd G x y = (sdist G x y : ℝ) := by
+  intro x y hxy hs
+  exact (wd_binary G hB x y hxy ((reachw_iff_sdist G x y).mpr (Or.inr hs))).2
+
+/-- the walks depend only on the support of the matrix -/
+theorem walk_congr_support (G H : ι → ι → ℝ) (hGH : ∀ a b, G a b ≠ 0 ↔ H a b ≠ 0) (x : ι) :
+    ∀ m y, walk G x y m ↔ walk H x y m := by
+  intro m
+  induction m with
+  | zero =>
+    intro y
+    exact Iff.rfl
+  | succ m ih =>
+    intro y
+    constructor
+    · rintro ⟨z, hw, hz⟩
+      exact ⟨z, (ih z).mp hw, (hGH z y).mp hz⟩
+    · rintro ⟨z, hw, hz⟩
+      exact ⟨z, (ih z).mpr hw, (hGH z y).mpr hz⟩
+
+/-- the hop distance depends only on the support of the matrix -/
+theorem sdist_congr_support (G H : ι → ι → ℝ) (hGH : ∀ a b, G a b ≠ 0 ↔ H a b ≠ 0) :
+    ∀ x y, sdist G x y = sdist H x y := by
+  intro x y
+  unfold sdist
+  congr 1
+  ext m
+  exact and_congr Iff.rfl (walk_congr_support G H hGH x m y)
+
+end wdbinary
+
 -- (tenth batch, `section dijkstra`: definitions `wwalk`, `reachw`, `wd`; `wd_self`, `wd_nonneg`, `wd_le`, `le_wd`, `wd_approx`, `wd_attained`
 --  (the infimum is a minimum), `wd_relax`, `wd_triangle`, `wwalk_cross(_wd)`, `dijkstra_lower`, `dijkstra_step`, `dijkstra_step_le`,
 --  `dijkstra_step_inv`, `dijkstra_step_T`, `dijkstra_init`, `dijkstra_exhausted`, `dijkstra_smt`, `wd_smt`, `reachw_iff_sdist`, `reachw_iff_walk(_pos)`, `wd_pos`, `wd_pred`:
 --  all proved.)
+-- (eleventh batch, `section floyd`: definition `swalk` (walks with intermediate nodes restricted to `S`); `swalk_zero`, `swalk_one`, `swalk_succ`,
+--  `swalk_pos`, `swalk_snoc`, `swalk_empty`, `swalk_mono`, `swalk_nonneg`, `swalk_concat`, `swalk_insert` (the Floyd–Warshall step),
+--  `swalk_of_wwalk`, `wwalk_of_swalk`, `swalk_wd`, `swalk_lower`, `floyd_smt`: all proved.)
+-- (twelfth batch, `section wdbinary`: on a 0/1 matrix the weighted distance is the hop distance (`wd_binary`, `wd_binary_smt`, `wwalk_binary_len`,
+--  `wwalk_binary_of_walk`); the hop distance depends only on the support (`walk_congr_support`, `sdist_congr_support`): all proved.)
 
 end VerifLemmas
